@@ -51,6 +51,8 @@ class TreeBanditOracle(Oracle):
         self.t = 1
         self.okA = True  # refresh placed before the traversal of round t = t+
         self.okB = True  # refresh placed after the traversal (inside the update)
+        self.pending = None
+        self.node_count = None
         st = ctx.extra["stats"]
         if self.kind == "T_HOO":
             self.n = float(p.get("rounds", 1000))
@@ -89,6 +91,10 @@ class TreeBanditOracle(Oracle):
         m = sum(rew) / T
         v = max(sum((x - m) ** 2 for x in rew) / T, 1e-3)
         return T, m, v
+
+    def mag(self, node):
+        e = self.led.get(id(node))
+        return max((abs(x) for x in e[1]), default=0.0) if e else 0.0
 
     def U(self, node, e):
         T, m, v = self.stats_of(node)
@@ -131,27 +137,49 @@ class TreeBanditOracle(Oracle):
     # ------------------------------------------------------------------ pull
     def after_pull(self, ctx):
         algo = ctx.algo
-        path = list(_attr(algo, "path"))
+        reg = list(_attr(algo, "path"))
+        if not reg:
+            raise HarnessError("cannot observe: the path register is empty")
+        # the register names the pulled cell; the descent itself is re-derived from the tree (a register that
+        # omits the root or is stored leaf-first describes the same descent)
+        self.pulled = max(reg, key=lambda n: n.get_depth())
+        path = []
+        n = self.pulled
+        while n is not None:
+            path.append(n)
+            n = n.get_parent()
+        path.reverse()
         self.path = path
-        self.pulled = path[-1]
         # variance of the pulled cell before the update (VHCT threshold ambiguity)
         self.var_before = self.stats_of(self.pulled)[2]
         self.T_before = self.stats_of(self.pulled)[0]
-        if not ctx.judging or self.which != "C05":
-            return
         t = self.t
         e = epoch(t)
+        judging = ctx.judging and self.which == "C05"
+        if self.which != "C05":
+            return
         st = ctx.extra["stats"]
+        if judging and self.pending is not None:
+            # stored values that did not match right after the previous round may be recomputed lazily at the next
+            # pull: they are judged again now, as the descent has consumed them
+            self.pending = None
+            self._check_values(ctx, t - 1, defer=False)
+        if not judging and not (self.kind != "T_HOO" and t == (1 << e)):
+            return
         if path[0] is not self.root:
-            raise Violation("C05.path", "the descent does not start at the root (round %d)" % t)
-        if len(path) < 2:
-            raise Violation("C05.path", "the root itself was pulled (round %d)" % t)
-        for a, b in zip(path, path[1:]):
-            ch = a.get_children()
-            if ch is None or not any(c is b for c in ch):
-                raise Violation("C05.path", "path step %r -> %r is not parent -> child (round %d)" % (cell_id(a), cell_id(b), t))
-        if list(map(float, ctx.x)) != list(map(float, self.pulled.get_cpoint())):
-            raise Violation("C05.path", "returned point %r is not the representative of the pulled cell %r" % (ctx.x, cell_id(self.pulled)))
+            raise Violation("C05.path", "the pulled cell is not in the tree rooted at the partition's root (round %d)" % t)
+        if judging:
+            if list(map(float, ctx.x)) != list(map(float, self.pulled.get_cpoint())):
+                raise Violation("C05.path", "returned point %r is not the representative of the pulled cell %r" % (ctx.x, cell_id(self.pulled)))
+            if len(path) < 2:
+                # the root itself: admissible only where the published rule stops there (HCT/VHCT: T_root < tau_0)
+                T = self.stats_of(self.root)[0]
+                if self.kind == "T_HOO" or not any(T < tau for tau in self.tau_set(self.root, e)):
+                    raise Violation("C05.path", "the root itself was pulled although the stopping rule does not stop there (round %d)" % t)
+                st.bump("root_pulls")
+                return
+        elif len(path) < 2:
+            return
         # B-values the traversal may have used: (B) as stored after the previous round;
         # (A) after a refresh at the start of a round with t = t+ (HCT/VHCT only)
         Bb, levels = self.ref_B(lambda n: float(n.get_u_value()))
@@ -159,7 +187,8 @@ class TreeBanditOracle(Oracle):
         if self.kind != "T_HOO" and t == (1 << e):
             Ba, _ = self.ref_B(lambda n: self.U(n, e))
             variants.append(("A", Ba))
-            st.bump("refresh_rounds")
+            if judging:
+                st.bump("refresh_rounds")
         okv = {}
         for name, B in variants:
             ok = True
@@ -167,20 +196,23 @@ class TreeBanditOracle(Oracle):
                 ch = a.get_children()
                 best = max(B[id(c)] for c in ch)
                 vb = B[id(b)]
-                if not (vb == best or close(vb, best, TOL)):
+                if not (vb == best or close(vb, best, TOL, self.mag(b))):
                     ok = False
                     self._why = ("at cell %r the descent moved to child %r with B=%r while a sibling has B=%r (round %d)"
                                  % (cell_id(a), cell_id(b), vb, best, t))
                     break
             okv[name] = ok
         if len(variants) == 1:
-            if not okv["B"]:
+            if judging and not okv["B"]:
                 raise Violation("C05.descent", self._why, round=t)
         else:
+            # the whole run must be consistent with ONE placement of the refresh: flags are kept over all rounds
             self.okA = self.okA and okv["A"]
             self.okB = self.okB and okv["B"]
-            if not (self.okA or self.okB):
+            if judging and not (self.okA or self.okB):
                 raise Violation("C05.descent", self._why + " [under either placement of the power-of-two refresh]", round=t)
+        if not judging:
+            return
         # stopping rule
         last = self.pulled
         if self.kind == "T_HOO":
@@ -220,16 +252,31 @@ class TreeBanditOracle(Oracle):
             # the pulled cell's U is recomputed with delta~ of round t or t+1 (t is incremented
             # before / after the update in the published / implemented order)
             self.ep[id(cell)] = {e, epoch(t + 1)}
+            if (t + 1) == (1 << epoch(t + 1)):
+                # "recomputed when the round counter reaches a power of two": a refresh at the moment the incremented
+                # counter reaches 2^k (end of round t) is admissible too
+                for nid in self.led:
+                    self.ep.setdefault(nid, set()).add(epoch(t + 1))
         self.t = t + 1
         if not ctx.judging:
             return
         st = ctx.extra["stats"]
         if self.which == "C05":
-            self._check_values(ctx, t)
+            self._check_values(ctx, t, defer=True)
         else:
             self._check_growth(ctx, t, e)
 
-    def _check_values(self, ctx, t):
+    def _check_values(self, ctx, t, defer=False):
+        try:
+            self._check_values_now(ctx, t)
+        except Violation as v:
+            if defer:
+                self.pending = v  # judged again at the next pull, when the descent consumes the values
+                ctx.extra["stats"].bump("value_checks_deferred")
+                return
+            raise
+
+    def _check_values_now(self, ctx, t):
         levels = reachable(self.P)
         Uref = {}
         for lvl in levels[1:]:
@@ -237,9 +284,9 @@ class TreeBanditOracle(Oracle):
                 u = float(n.get_u_value())
                 T = self.stats_of(n)[0]
                 if n.get_visited_times() != T:
-                    # C04's business; the index cannot be judged on a different history
-                    raise Violation("C05.count", "cell %r has pull count %r, the history gives %d (round %d)"
-                                    % (cell_id(n), n.get_visited_times(), T, t))
+                    # a different history than the one observed: C04's business, the index cannot be judged
+                    ctx.extra["stats"].bump("unjudgeable_rounds_count_mismatch")
+                    return
                 if T == 0:
                     if u != INF:
                         raise Violation("C05.U", "unvisited cell %r has finite U=%r (round %d)" % (cell_id(n), u, t))
@@ -248,7 +295,7 @@ class TreeBanditOracle(Oracle):
                         cands = [self.U(n, 0)]
                     else:
                         cands = [self.U(n, e) for e in sorted(self.ep.get(id(n), ()))]
-                    if not any(close(u, c, TOL) for c in cands):
+                    if not any(close(u, c, TOL, self.mag(n)) for c in cands):
                         raise Violation("C05.U", "cell %r (T=%d) stores U=%r, the published index gives %r (round %d)"
                                         % (cell_id(n), T, u, cands, t), round=t)
                 Uref[id(n)] = u
@@ -258,7 +305,7 @@ class TreeBanditOracle(Oracle):
             for n in lvl:
                 b = float(n.get_b_value())
                 want = B[id(n)]
-                if not (b == want or close(b, want, TOL)):
+                if not (b == want or close(b, want, TOL, self.mag(n))):
                     raise Violation("C05.B", "cell %r stores B=%r, min(U, max children B) gives %r (round %d)"
                                     % (cell_id(n), b, want, t), round=t)
         ctx.extra["stats"].bump("value_checks")
@@ -278,11 +325,19 @@ class TreeBanditOracle(Oracle):
                 raise Violation("C06.leaf", "round %d re-expanded cell %r which already had children" % (t, cell_id(cell)))
             self._fresh(c["children"], "(round %d)" % t)
             st.bump("expansions")
+        # growth that bypasses make_children would be invisible to the recorder: the number of reachable cells
+        # may only change by the children of the recorded call
+        count = sum(len(l) for l in reachable(self.P))
+        if self.node_count is not None and count != self.node_count + (len(calls[0]["children"]) if expanded else 0):
+            raise Violation("C06.count", "round %d: the tree went from %d to %d cells but %d cell(s) were created through the partition"
+                            % (t, self.node_count, count, len(calls[0]["children"]) if expanded else 0))
+        self.node_count = count
         was_leaf = (not expanded and cell.get_children() is None) or (expanded and calls[0]["was_leaf"])
         h = cell.get_depth()
         if self.kind == "T_HOO":
             verdicts = {h <= D for D in self.Dset}
-            depth_ok = any(self.P.get_depth() <= D + 1 for D in self.Dset)
+            # the root is always split once at construction, so depth 1 is legitimate whatever the bound
+            depth_ok = any(self.P.get_depth() <= max(1, D + 1) for D in self.Dset)
             if not depth_ok:
                 raise Violation("C06.depth", "tree depth %d exceeds the truncation depth %r + 1" % (self.P.get_depth(), sorted(self.Dset)))
             if h > max(self.Dset) - 1:
